@@ -99,6 +99,15 @@ Proof.
 Qed.
 Print Assumptions c14_serialize_in_bounds.
 
+(* Serialisation is a function of the message only: a MessageSerializer that is reused keeps the
+   bytes of earlier messages in its buffer (`stale`, arbitrary), and every field overwrites its own
+   bytes -- a string as memcpy of the characters plus memset of the NUL padding -- so the result is
+   the same as from a fresh object.  (That the C++ object really has no other state is validated by
+   the harness, which re-encodes every case through a long-lived serializer dirtied with 0xff.) *)
+Theorem c14_serialize_stateless : forall stale m, serialize_into stale m = serialize m.
+Proof. exact serialize_into_eq. Qed.
+Print Assumptions c14_serialize_stateless.
+
 (* The unguarded statement is FALSE of today's code: SET IDENTIFY_DEVICE (ESTA PID 0x1000, request)
    is in the shipped table, accepts the payload 0x02 and re-encodes it as 0x01. *)
 Theorem c14_bool_refuted :
@@ -161,6 +170,15 @@ Proof.
   intros Hb. rewrite HS. apply reenc_bools_canonical; [lia|assumption].
 Qed.
 Print Assumptions c14_shipped_generic.
+
+(* GroupSizeCalculator (block count of the variable group derived from a token count when a
+   message is built from text): it never divides by a zero token count when every variable
+   top-level group has a token per block, which holds for every shipped descriptor. *)
+Theorem c14_group_size_calculator : 
+  (forall tc fs, gtok_ok fs = true -> gcalc tc fs <> GDivZero) /\
+  forallb (fun e => gtok_ok (snd e)) PidDescs.all = true.
+Proof. split; [exact gcalc_no_divzero|exact shipped_gtok]. Qed.
+Print Assumptions c14_group_size_calculator.
 
 (* The exported store is internally consistent: per manufacturer no PID value and no PID name occurs
    twice, no (manufacturer, PID, kind) key occurs twice, and each store's by-value and by-name
